@@ -56,13 +56,13 @@ def plan(proj, ops, tier, rnd):
     return inj
 
 
-def judge(proj, rec, box, cfg, built, expected):
+def judge(proj, rec, box, cfg, built, expected, pre=None):
     v = []
     fired = [o for o in (rec.shim or []) if o["fired"]]
-    fired_fail = [o for o in fired if o["fired"].startswith("errno") and fault.phase_of(o) in UPDATE_PHASES]
+    fired_fail = [o for o in fired if o["fired"].startswith("errno") and o["fired"] != "errno:4" and fault.phase_of(o) in UPDATE_PHASES]
     states, ids = fault.post_state(proj, box, expected)
     ntok = len(ids)
-    known = set(os.path.join("proj", r) for r in list(proj.files) + list(proj.extra)) | {"proj/Breadlog.yaml", "proj/Breadlog.lock"}
+    known = set(os.path.join("proj", r) for r in list(proj.files) + list(proj.extra)) | {"proj/Breadlog.yaml", "proj/Breadlog.lock"} | set(pre or ())
     left = sorted(p for p, v in core.snapshot(box.root, content=False).items() if v[0] != "d" and p not in known)
     normal_exit = rec.rc is not None
     if fired_fail and rec.rc == 0:
@@ -88,6 +88,24 @@ def work(job):
     xbox = None
     with core.Box(tag="c08") as box:
         cfg = proj.materialise(box)
+        if kind == "env":
+            # unusual temporary directories: the generic clauses apply (exit 0 => everything inserted; normal exit => nothing left)
+            if label == "tmpdir-non-utf8-name":
+                tmpdir = os.fsdecode(os.path.join(os.fsencode(box.root), b"scratch-\xff\xfe-dir"))
+                os.makedirs(tmpdir)
+            elif label == "tmpdir-missing":
+                tmpdir = os.path.join(box.root, "no", "such", "dir")
+            elif label == "tmpdir-is-a-file":
+                tmpdir = os.path.join(box.root, "plainfile")
+                open(tmpdir, "w").write("x")
+            elif label == "tmpdir-with-spaces-and-unicode":
+                tmpdir = os.path.join(box.root, "tmp dir ü 世界")
+                os.makedirs(tmpdir)
+            elif label == "tmpdir-is-the-source-dir":
+                tmpdir = os.path.join(box.proj, "src")
+            elif label == "tmpdir-relative":
+                tmpdir = "reltmp"
+                os.makedirs(os.path.join(box.proj, "reltmp"))
         if exdev:
             # a real cross-device scenario: TMPDIR on another filesystem than the sources
             other = "/var/tmp" if box.top.startswith("/dev/shm") else "/dev/shm"
@@ -97,10 +115,11 @@ def work(job):
             tmpdir = os.path.join(other, "vf-xdev-%d-%s" % (os.getpid(), os.path.basename(box.top)))
             os.makedirs(tmpdir)
         try:
+            pre = set(core.snapshot(box.root, content=False))       # what the harness itself put there
             rec = core.run_breadlog(built, box, cfg, rules=rules, shim=True, tmpdir=tmpdir, timeout=120)
             if exdev:
                 box_tmp_left = sorted(os.listdir(tmpdir))
-            v, fired, fired_fail, states = judge(proj, rec, box, cfg, built, expected)
+            v, fired, fired_fail, states = judge(proj, rec, box, cfg, built, expected, pre)
             if exdev:
                 # leftovers are in the foreign TMPDIR; every rename must have failed for real
                 real_fail = [o for o in rec.shim if o["kind"] == "rename" and o["errno"] == 18]
@@ -121,6 +140,8 @@ def work(job):
     if rec.panicked():
         res["inconclusive"]["run-panicked (C17's business)"] = 1
         return res
+    if kind == "env":
+        fired = fired or [{"n": 0, "kind": "env", "fired": label, "path": tmpdir or ""}]
     if not fired and not exdev:
         res["inconclusive"]["injection did not fire"] = 1
         return res
@@ -156,6 +177,18 @@ def main(tier):
         for label, rules, kind in plan(proj, ops, tier, rnd):
             jobs.append((built, pi, proj, expected, label, rules, kind, False))
         jobs.append((built, pi, proj, expected, "real-exdev-tmpdir", None, "exdev", True))
+        for envlabel in ("tmpdir-non-utf8-name", "tmpdir-missing", "tmpdir-is-a-file", "tmpdir-with-spaces-and-unicode",
+                         "tmpdir-is-the-source-dir", "tmpdir-relative"):
+            jobs.append((built, pi, proj, expected, envlabel, "n=999999,act=delay:0", "env", False))
+        # faults on the lock reservation / final lock write (generic clauses only) and an update fault followed by a stop signal
+        lockops = [o for o in ops if fault.phase_of(o).startswith("lock-") and o["kind"] in ("openw", "write", "rename")]
+        for o in lockops[:12]:
+            for e in ("EIO", "ENOSPC", "EACCES"):
+                jobs.append((built, pi, proj, expected, "lock:%s@%d" % (e, o["n"]), "n=%d,act=errno:%d" % (o["n"], fault.ERRNO[e]), "lockfault", False))
+        upd_ops = [o["n"] for o in ops if fault.phase_of(o) in UPDATE_PHASES]
+        for k in upd_ops[:: max(1, len(upd_ops) // 6)][:8]:
+            jobs.append((built, pi, proj, expected, "errno+signal@%d" % k, "n=%d,act=errno:5;n=%d,act=sig:15" % (k, k + 2), "fault+signal", False))
+            jobs.append((built, pi, proj, expected, "eintr@%d" % k, "n=%d,act=errno:4" % k, "transient", False))
         # the clean run itself: normal exit must leave no temporary file
         jobs.append((built, pi, proj, expected, "no-fault", "n=999999,act=delay:0", "clean", False))
     for res in frame.pmap(work, jobs, chunksize=4):
